@@ -1,0 +1,9 @@
+//go:build verif
+
+// Contracts for govc (comment-only file; see /verif/DESIGN.md section 3).
+package party
+
+//@ spec fn ids_contains(Slice, Int) Bool
+
+//@ func (IDSlice).Contains
+//@   modifies nothing
